@@ -108,6 +108,13 @@ func (r *Parser) Next(f *Field) bool {
 // Err returns the last read error. At the end of input
 // it will always be equal to io.EOF.
 func (r *Parser) Err() error {
+	if r.inputScanner != nil {
+		// A failed read comes first: if it cut a field short, the unexpected end of input
+		// the field parser sees is only its consequence.
+		if err := r.inputScanner.Err(); err != nil {
+			return err
+		}
+	}
 	if err := r.fieldScanner.Err(); err != nil {
 		return err
 	}
@@ -116,7 +123,7 @@ func (r *Parser) Err() error {
 		// We need it inside the client, to know when to retry.
 		return io.EOF
 	}
-	return r.inputScanner.Err()
+	return nil
 }
 
 // Buffer sets the buffer used to scan the input.
